@@ -224,7 +224,7 @@ def run(ctx: Ctx):
                        "declared float may be booked float or double; double only as double; int as int; bool as bool"]
     for be in BACKENDS:
         cxx.std_model(be)
-    total = ctx.n(176, 4800)
+    total = ctx.n(320, 4800)
     shards = 16
     payloads = [(derive_seed(ctx.seed, "C03", i), max(1, total // shards), ctx.deadline, BACKENDS[i % 3]) for i in range(shards)]
     for st_ in run_shards("vf.props.C03", "worker", payloads):
